@@ -6,13 +6,20 @@ PROPS["C12"] = dict(
     dict(name="c12", ll2c_flags=["--null-guard"], **_c12_common,
          shards={"quick": _with(op_shards([B_TET], [3], [OP_DEL_V, OP_DEL_F, OP_DEL_C], per=2) + op_shards([B_TET], [3], [OP_DEL_E], per=2)[:1], {7: 15})
                         + [d for sub in (10, 12) for d in _with(op_shards([B_TET], [3], [OP_DEL_F], per=2)[:1] + op_shards([B_TET], [3], [OP_DEL_C], per=2) + op_shards([B_TET], [3], [OP_DEL_E], per=2)[:1], {7: sub})]
-                        + _with(op_shards([B_TET], [0], [OP_DEL_E], per=2)[:1], {7: 15}) + _with(op_shards([B_TET], [1], [OP_DEL_E], per=2)[:2], {4: OP_DEL_F, 5: 0, 7: 10})
+                        + _with(op_shards([B_TET], [0], [OP_DEL_E], per=2)[:1], {7: 15})
                         + _with(op_shards([B_LOWDIM], [0], [OP_ADD_E], per=2)[:1], {7: 9}),
                  "thorough": _with(op_shards([B_LOWDIM], [1], [OP_ADD_V, OP_GC, OP_CLEAR], per=2), {7: 15}) + [d for sub in (15, 7, 9, 10, 12, 11, 13, 14) for md in (0, 1, 3) for d in _with(op_shards([B_TET], [md], _DELS, per=2), {7: sub})]
                         + [d for sub in (15, 10, 12) for d in _with(op_shards([B_TET2_FACE], [3], _DELS, per=2), {7: sub})]
                         + [d for sub in (15, 9) for d in _with(op_shards([B_LOWDIM], [0], [OP_ADD_E, OP_ADD_E_DUP], per=2), {7: sub})]},
          bounds="differential (also after a deferred pre-deletion): fully enabled twin vs. mesh with a subset of {vertex, edge, face} bottom-up incidences disabled (before or after the base is built); one operation (delete_*, add_edge, add_vertex, "
                 "collect_garbage, clear) with a symbolic selector over 2 argument tuples per query; CBMC pointer/bounds checks on every access; circulator validity; C01 oracle (level 1) after re-enabling"),
+    # two-step histories (deferred pre-deletion, then the checked operation) without CBMC's per-access pointer checks (the null-guard of the translator stays on):
+    # with them one query takes > 650 s, which does not fit the quick budget
+    dict(name="c12-k2", ll2c_flags=["--null-guard"], **dict(_c12_common, checks="none"),
+         shards={"quick": _with(op_shards([B_TET], [1], [OP_DEL_E], per=2)[:2], {4: OP_DEL_F, 5: 0, 7: 10}),
+                 "thorough": [d for sub in (10, 12, 9) for pre in (OP_DEL_F, OP_DEL_C) for d in _with(op_shards([B_TET], [1], [OP_DEL_E, OP_DEL_V], per=2), {4: pre, 5: 0, 7: sub})]},
+         bounds="as c12 after a deferred pre-deletion (delete_face(0) / delete_cell(0) under deferred deletion, then the checked delete_edge/delete_vertex with edge (quick), face or vertex incidences disabled): "
+                "the fallback scans must skip the deferred-deleted entities; translator null-guard on, CBMC pointer/bounds checks off"),
   ],
   assumptions=["swaps with disabled incidences are decided in C17 (job c17-nobu), deletion results without incidences against the reference model in C02 (job c02-nobu)"],
 )
